@@ -27,6 +27,9 @@ TEMPLATES = {
     "od,r": ("od=7, {r1}", [], ["r1"]),
     "r,r": ("{r1}, {r2}", [], ["r1", "r2"]),
     "o,r,*,r": ("o, {r1}, *, {r2}", ["o"], ["r1", "r2"]),
+    # ordinary parameters with names the decorator may be tempted to use for itself
+    "resources,func,r": ("resources, func, {r1}", ["resources", "func"], ["r1"]),
+    "r,*,args_,ctx": ("{r1}, *, wrapper, ctx", ["wrapper", "ctx"], ["r1"]),
 }
 REJECTS = ("posonly", "noannotation", "uncalled", "posonly-mixed", "noannotation-mixed", "uncalled-mixed", "uncalled-mixed-first")
 
@@ -113,7 +116,7 @@ def all_cases(tier: str) -> list:
             if two and ann1 == "future":
                 ann2s = ("future",)
             for ann2 in ann2s:
-                for name1 in ("default", "x"):
+                for name1 in ("default", "x", "9z"):  # ("9z": any \w+ name is a resource name, not only identifiers)
                     for is_async in (False, True):
                         for local in (False, True):
                             states1 = STATES
@@ -566,10 +569,11 @@ class C19:
         sig, ords, injs = TEMPLATES[case["template"]]
         if len(res["samples"]) < 1 and case["local"] and case["s1"] != "static":
             res["samples"].append({"case": case, "source": src})
-        ordvals = {"o": "ordinary-o", "k": "kwonly-k"}
+        ordvals = {"o": "ordinary-o", "k": "kwonly-k", "resources": "ordinary-resources", "func": "ordinary-func", "wrapper": "kwonly-wrapper",
+                   "ctx": "kwonly-ctx"}
         args, kwargs = [], {}
         for o in ords:
-            if o == "k" or case["style"] == "kw":
+            if o in ("k", "wrapper", "ctx") or case["style"] == "kw":
                 kwargs[o] = ordvals[o]
             else:
                 args.append(ordvals[o])
